@@ -8,3 +8,5 @@ import Geo.Props.C07
 #print axioms Geo.T07_2_join3_is_det
 #print axioms Geo.T07_3_bracket3
 #print axioms Geo.T07_3_crossratio_invariant
+#print axioms Geo.T07_5_line_plane_commutes
+#print axioms Geo.T07_5_line_point_commutes
